@@ -168,6 +168,16 @@ Definition k2_check : bool :=
 Lemma k2_check_true : k2_check = true.
 Proof. vm_compute. reflexivity. Qed.
 
+Lemma k2_run_eq :
+  burst k2_cf k2_cmds k2_events conn0
+  = (k2_trace, snd (fst (fst k2_result)), snd (fst k2_result), snd k2_result).
+Proof.
+  unfold k2_trace, k2_result. destruct (burst k2_cf k2_cmds k2_events conn0) as [[[a b] c] d]. reflexivity.
+Qed.
+
+(* from here on the 65 537-step run is never unfolded by the tactics: only k2_check_true speaks about it *)
+Global Opaque k2_trace k2_result.
+
 Theorem reply_matches_without_fresh_refuted :
   exists cf cmds evs k past tr k' rest c d,
     config_ok cf /\ NoDup (ids cmds) /\ history_ok past k cmds /\
@@ -178,23 +188,72 @@ Theorem reply_matches_without_fresh_refuted :
     c = 65536 /\ d_src d = 0 /\ In (OSend 0 0 0 0) tr.
 Proof.
   pose proof k2_check_true as Hk. unfold k2_check in Hk. cbn zeta in Hk.
-  repeat (apply andb_prop in Hk; destruct Hk as [Hk ?]).
-  rename Hk into Hcausal, H into Hnosend, H0 into Hsend0, H1 into Hcb, H2 into Hoc.
+  apply andb_prop in Hk. destruct Hk as [Hk Hnosend].
+  apply andb_prop in Hk. destruct Hk as [Hk Hsend0].
+  apply andb_prop in Hk. destruct Hk as [Hk Hcb].
+  apply andb_prop in Hk. destruct Hk as [Hcausal Hoc].
   exists k2_cf, k2_cmds, k2_events, conn0, [], k2_trace,
          (snd (fst k2_result)), (snd k2_result), 65536, k2_stale.
   split; [unfold config_ok, k2_cf; cbn; lia|].
   split; [apply (run_cmds_ids (N.to_nat 65537) 0 0)|].
   split; [intros tx c s t []|].
   split.
-  { unfold k2_trace. destruct k2_result as [[[tr oc] k'] rest] eqn:E. cbn [fst snd] in *.
-    destruct oc; try discriminate Hoc. reflexivity. }
+  { rewrite k2_run_eq. remember (snd (fst (fst k2_result))) as oc eqn:Eoc in *.
+    destruct oc as [|c|rc [c|]|rc| |]; try discriminate Hoc. reflexivity. }
   cbn [app].
   split; [apply causalb_causal; exact Hcausal|].
   split.
   { apply existsb_exists in Hcb. destruct Hcb as (o & Hin & Ho). apply output_eqb_eq in Ho. subst o. exact Hin. }
   split.
   { intros [_ [t Hin]]. unfold no_send_of in Hnosend. rewrite forallb_forall in Hnosend.
-    specialize (Hnosend _ Hin). cbn in Hnosend. discriminate Hnosend. }
+    specialize (Hnosend _ Hin). cbn beta iota in Hnosend. unfold k2_stale in Hnosend.
+    cbn [d_src] in Hnosend. rewrite !Z.eqb_refl in Hnosend. discriminate Hnosend. }
   split; [reflexivity|]. split; [reflexivity|].
   apply existsb_exists in Hsend0. destruct Hsend0 as (o & Hin & Ho). apply output_eqb_eq in Ho. subst o. exact Hin.
 Qed.
+
+(* ---------------------------------------------------------------------------------------------- *)
+(* the hypotheses of the theorems are satisfiable                                                    *)
+(* ---------------------------------------------------------------------------------------------- *)
+
+(* window 2, 3 tries, timeout 10; command 1 has an extra timeout of 5.  Request 0 is answered late (its
+   retransmission is answered too: a duplicate), command 1 first gets a busy (retryable) answer and is
+   retransmitted; 6 further events are supplied and not needed *)
+Definition ex_cf : config := Cf 2 3 10.
+Definition ex_cmds : list cmd := [Cmd 0 0; Cmd 1 5; Cmd 2 0].
+Definition ex_events : list event :=
+  [Ev [] 11; Ev [Dg 128 0 0; Dg 128 0 2] 12; Ev [Dg 130 1 1] 13; Ev [] 16;
+   Ev [Dg 128 2 3; Dg 128 1 4] 17; Ev [] 18] ++ repeat (Ev [] 100) 6.
+
+Lemma ex_satisfiable :
+  config_ok ex_cf /\ NoDup (ids ex_cmds) /\ history_ok [] conn0 ex_cmds /\ 0 <= k_seq conn0 < 65536 /\
+  select_honest ex_cf ex_events conn0 (bstate0 ex_cmds) /\
+  Z.of_nat (datagrams conn0 ex_events) + Z.of_nat (length ex_cmds) * (cf_tries ex_cf - 1) + 1
+    <= Z.of_nat (length ex_events) /\
+  exists tr k' rest,
+    burst ex_cf ex_cmds ex_events conn0 = (tr, Returned, k', rest) /\ causal ([] ++ tr) /\ fresh ([] ++ tr) /\
+    n_sends 0 tr = 2%nat /\ n_sends 1 tr = 2%nat /\ length rest = 6%nat.
+Proof.
+  split; [unfold config_ok; cbn; lia|].
+  split; [cbn; repeat constructor; cbn; intuition lia|].
+  split; [intros tx c s t []|].
+  split; [cbn; lia|].
+  split; [cbv; repeat split; try (right; reflexivity); try (left; discriminate)|].
+  split; [vm_compute; discriminate|].
+  remember (burst ex_cf ex_cmds ex_events conn0) as r eqn:Er.
+  assert (Hr : r = burst ex_cf ex_cmds ex_events conn0) by exact Er.
+  vm_compute in Er. subst r.
+  eexists. eexists. eexists. split; [symmetry; exact Hr|]. cbn [app].
+  split; [apply causalb_causal; vm_compute; reflexivity|].
+  split; [apply freshb_fresh; vm_compute; reflexivity|].
+  repeat split; reflexivity.
+Qed.
+
+Lemma ex_timeout :
+  exists tr k' rest, burst (Cf 1 2 10) [Cmd 7 0] [Ev [] 11; Ev [] 22] conn0 = (tr, RaisedTimeout 7, k', rest).
+Proof. eexists. eexists. eexists. vm_compute. reflexivity. Qed.
+
+Lemma ex_fatal :
+  exists tr k' rest,
+    burst (Cf 1 2 10) [Cmd 7 0] [Ev [Dg rc_cpu 0 0] 1] conn0 = (tr, RaisedFatal rc_cpu (Some 7), k', rest).
+Proof. eexists. eexists. eexists. vm_compute. reflexivity. Qed.
